@@ -20,6 +20,7 @@ namespace Hostd.Drive.Txn
 open Hostd.Proto Hostd.Txn
 
 structure DState where
+  fixed     : List String := []   -- repairs the configuration says the tree contains (`--fixed=a,b`)
   dead      : Bool := false
   hists     : Nat := 0
   ops       : Nat := 0
@@ -101,6 +102,46 @@ def checkCopy (name : String) (kind : Option Kind) (e : String) : List Verdict :
 
 def isSetupHelper (name : String) : Bool := name == "StoreSectors"
 
+/-- `--fixed=webhooks,syncdb,settings,pin` -/
+def parseArgs (args : List String) : List String :=
+  args.foldl (fun acc a =>
+    if a.startsWith "--fixed=" then acc ++ ((a.drop 8).toString.splitOn ",").filter (· ≠ "") else acc) []
+
+/-- the transaction the `k`-th statement point of a call belongs to (`kinds`: one letter per point,
+`c` = commit), as its letter in `txs` (`w` writing, `r` read-only) and whether a writing one came before -/
+def followUpPoint (kinds txs : String) (k : Nat) : Bool :=
+  let t := ((kinds.toList.take k).filter (· == 'c')).length
+  let ts := txs.toList
+  match ts[t]? with
+  | some 'r' => (ts.take t).contains 'w'
+  | _ => false
+
+/-- A selected fact says the operation writes its mirror too early / too late; the implementation was
+observed NOT to: the fact is stale (the repair is in the tree but not in the configuration). -/
+def staleFact (fixed : List String) (name kinds txs mchg : String) (fs : List String) : Bool :=
+  match (deviantTable fixed).find? (·.name == name) with
+  | none => false
+  | some o =>
+    let fired := fs.filterMap fun e => match splitColon e with
+      | k :: res :: f :: _ :: cache :: _ => if res != "ok" && f == "1" then some (k.toNat?.getD 0, cache) else none
+      | _ => none
+    if o.kind == .indexer then
+      -- a reported failure inside a follow-up transaction, tip still agreeing.  Statement indices are those of
+      -- the uninterrupted run (`kinds`), so only attempts that started from the same state count: everything up
+      -- to and including the first attempt that moved the database.
+      let rec go (clean : Bool) : List String → Bool
+        | [] => false
+        | e :: rest =>
+          match splitColon e with
+          | k :: res :: f :: st :: cache :: _ =>
+            let here := clean && res != "ok" && f == "1" && cache == "-" && followUpPoint kinds txs (k.toNat?.getD 0)
+            here || go (clean && (st == "b" || st == "ba")) rest
+          | _ => go clean rest
+      go true fs
+    else
+      -- the operation changes the mirrored value, a call failed, and not once did the mirror run ahead
+      mchg != "-" && !fired.isEmpty && fired.all fun (_, cache) => cache == "-"
+
 def stepOp (d : DState) (l : Line) : DState × List Verdict :=
   match getStr l.args "name", getStr l.obs "twin", getNat l.obs "n", getStr l.obs "txs",
         getStrList l.obs "f", getStrList l.obs "cr", getStr l.obs "retry", getNat l.obs "eq",
@@ -108,7 +149,7 @@ def stepOp (d : DState) (l : Line) : DState × List Verdict :=
   | some name, some twin, some n, some txs, some fs, some crs, some retry, some eq, some cache, some integ =>
     let diff := (getStr l.obs "diff").getD "-"
     let rdiff := (getStr l.obs "rdiff").getD "-"
-    let shape := findShape name
+    let shape := findShapeIn d.fixed name
     let kind := shape.map (·.kind)
     let w := countChar 'w' txs
     -- 1. the table knows the operation, and the number of writing transactions fits its kind
@@ -141,9 +182,13 @@ def stepOp (d : DState) (l : Line) : DState × List Verdict :=
     let cacheBad := fs.any fun e => match splitColon e with
       | _ :: _ :: _ :: _ :: c :: _ => c != "-"
       | _ => false
-    let modelDisagrees := match shape with
-      | some o => n ≥ 2 && !(predict o n 0).2
-      | none => false
+    let modelDisagrees := (deviantTable d.fixed).any (·.name == name) && n ≥ 2
+    let kinds := (getStr l.obs "kinds").getD ""
+    let mchg := (getStr l.obs "mchg").getD "-"
+    let vStale : List Verdict :=
+      if staleFact d.fixed name kinds txs mchg fs then
+        [.mismatch s!"shape_fact/{name}" "deviant_shape_selected" "implementation_keeps_mirror_in_step"]
+      else []
     let d := { d with ops := d.ops + 1, faults := d.faults + fs.length, kills := d.kills + crs.length,
                       retries := d.retries + (if retry == "skip" then 0 else 1),
                       deviantSeen := d.deviantSeen + (if modelDisagrees && firedFail && cacheBad then 1 else 0),
@@ -151,7 +196,7 @@ def stepOp (d : DState) (l : Line) : DState × List Verdict :=
                       opsSeen := if d.opsSeen.contains name then d.opsSeen else name :: d.opsSeen }
     let d := if twin == "ok" && name == "W.Register" then { d with hooksLive := d.hooksLive + 1 }
              else if twin == "ok" && name == "W.Remove" then { d with hooksLive := d.hooksLive - 1 } else d
-    let vs := vShape ++ vF ++ vC ++ vR ++ vCache ++ vI
+    let vs := vShape ++ vF ++ vC ++ vR ++ vCache ++ vI ++ vStale
     ({ d with dead := !vs.isEmpty }, vs)
   | _, _, _, _, _, _, _, _, _, _ =>
     match getStr l.obs "bad" with
@@ -170,9 +215,12 @@ def stepRestart (d : DState) (l : Line) : DState × List Verdict :=
     let vI : List Verdict := if integ == "ok" then [] else [.monitor "c09/integrity_check" s!"after_restart,result={integ}"]
     -- the constructor fact of the model against what was observed (informational)
     let hooksSame := (lookup l.obs "c:webhooks") == some "1"
-    let stale := !Restart.webhooksCtor.loads && d.hooksLive > 0 && hooksSame
+    let nhooks := (getNat l.obs "nhooks").getD 0
+    let stale := !(Restart.webhooksCtorOf d.fixed).loads && nhooks > 0 && hooksSame
+    let vStale : List Verdict :=
+      if stale then [.mismatch "ctor_fact/webhooks.NewManager" "does_not_load_selected" "hooks_served_after_restart"] else []
     let d := { d with restarts := d.restarts + 1, ctorStale := d.ctorStale + (if stale then 1 else 0) }
-    let vs := vC ++ vD ++ vA ++ vI
+    let vs := vC ++ vD ++ vA ++ vI ++ vStale
     ({ d with dead := !vs.isEmpty }, vs)
   | _, _, _, _ =>
     match getStr l.obs "bad" with
@@ -214,6 +262,6 @@ def step (d : DState) (l : Line) : DState × List Verdict :=
   else (d, [.badline "unknown op"])
 
 def stats (d : DState) : String :=
-  s!"hists={d.hists} ops={d.ops} faults={d.faults} kills={d.kills} retries={d.retries} restarts={d.restarts} resumes={d.resumes} batchsteps={d.batchSteps} opkinds={d.opsSeen.length} deviant_seen={d.deviantSeen} deviant_fixed={d.deviantFixed} ctor_fact_stale={d.ctorStale}"
+  s!"hists={d.hists} ops={d.ops} faults={d.faults} kills={d.kills} retries={d.retries} restarts={d.restarts} resumes={d.resumes} batchsteps={d.batchSteps} opkinds={d.opsSeen.length} deviant_seen={d.deviantSeen} deviant_fixed={d.deviantFixed} ctor_fact_stale={d.ctorStale} fixed={"+".intercalate d.fixed}"
 
 end Hostd.Drive.Txn
